@@ -285,6 +285,133 @@ def trip_rounds(ctx, case):
         shutil.rmtree(dir_b, ignore_errors=True)
 
 
+def trip_threads(ctx, quick):
+    """Worker threads inside one operation fetch and publish files of different sizes through the SAME decorated functions (one
+    handler object per decorated function, shared by every caller). Explored with the deterministic scheduler, preemption points on
+    the lines of the file handlers; afterwards the recording is replayed and every file compared byte for byte."""
+    from vlib import sched as S
+    from vlib import genclasses
+    from playback.tape_recorder import TapeRecorder, CapturedArg
+    from playback.interception.files.input_file_interception import InputInterceptionFileDataHandler
+    from playback.interception.files.output_file_interception import OutputInterceptionFileDataHandler
+    import playback.interception.files.file_interception as fi
+    import playback.interception.files.input_file_interception as ifi
+    import playback.interception.files.output_file_interception as ofi
+    tg = [fi.__file__, ifi.__file__, ofi.__file__]
+    rng = random.Random(ctx.seed * 77 + 5)
+    for variant in range(2 if quick else 6):
+        sizes = [(3000, 10), (10, 3000), (500, 499), (0, 64), (4096, 4097), (1, 2)][variant]
+        contents = [contents_fixed(rng, n) for n in sizes]
+        static = variant % 2 == 1
+        limit = {} if variant % 3 else {'intercepted_size_limit': 1}
+        with open_box('memory') as box:
+            spy = SpyCassette(box.cassette)
+            rec = TapeRecorder(spy)
+            rec.enable_recording()
+            in_handler = InputInterceptionFileDataHandler(0 if static else 1, 'file_path', **limit)
+            out_handler = OutputInterceptionFileDataHandler(0, 'file_path', **limit)
+
+            def fetch_body(file_path, who):
+                with open(file_path, 'wb') as f:
+                    f.write(contents[who])
+                return file_path
+            ns = {}
+            if static:
+                ns['fetch'] = staticmethod(rec.static_intercept_input('files.fetch', data_handler=in_handler, capture_args=[CapturedArg(1, 'who')])(
+                    lambda file_path, who: fetch_body(file_path, who)))
+            else:
+                ns['fetch'] = rec.intercept_input('files.fetch', data_handler=in_handler, capture_args=[CapturedArg(2, 'who')])(
+                    lambda self, file_path, who: fetch_body(file_path, who))
+            ns['publish'] = rec.intercept_output('files.publish%d' % 0, data_handler=out_handler)(lambda self, file_path: 'ok')
+            ns['publish1'] = rec.intercept_output('files.publish%d' % 1, data_handler=out_handler)(lambda self, file_path: 'ok')
+            holder = {}
+
+            def execute(self, workdir, thread_cls):
+                seen = holder['seen']
+
+                def worker(who):
+                    src = os.path.join(workdir, 'in%d.bin' % who)
+                    dst = os.path.join(workdir, 'out%d.bin' % who)
+                    got = self.fetch(src, who)
+                    with open(got, 'rb') as f:
+                        data = f.read()
+                    seen[who] = data
+                    with open(dst, 'wb') as f:
+                        f.write(data)
+                    (self.publish if who == 0 else self.publish1)(dst)
+                if thread_cls is None:
+                    for who in range(2):
+                        worker(who)
+                else:
+                    ths = [thread_cls(target=worker, args=(who,), name='w%d' % who) for who in range(2)]
+                    for t in ths:
+                        t.start()
+                    for t in ths:
+                        t.join()
+                return 2
+            ns['execute'] = rec.operation()(execute)
+            cls = genclasses.register(type('FileThreads%d_%d' % (ctx.seed % 1000, variant), (object,), ns))
+            dirs = []
+
+            def make(sched):
+                d = tempfile.mkdtemp(prefix='vp-c20t-')
+                dirs.append(d)
+                holder['seen'] = {}
+                holder['dir'] = d
+
+                def main():
+                    cls().execute(d, sched.Thread)
+                return main
+
+            def on_run(r, desc):
+                ctx.case({'threads': True, 'variant': variant, 'trace': r.trace}, nontrivial=len(r.points) > 0)
+                ctx.count('threaded_file_schedules')
+                w = {'kind': 'threads', 'variant': variant, 'sizes': list(sizes), 'schedule': desc if isinstance(desc, tuple) else list(desc)}
+                try:
+                    if r.aborted or r.error is not None:
+                        if r.aborted and 'budget' in r.aborted:
+                            ctx.count('schedules_over_step_budget')
+                            return
+                        ctx.violation('threaded file trip: %s' % (r.aborted or repr(r.error))[:120], w)
+                        return
+                    saves = [e for e in spy.log if e[0] == 'save']
+                    if not saves:
+                        ctx.violation('threaded file trip was not saved', w)
+                        return
+                    rid = saves[-1][2]
+                    live_seen = dict(holder['seen'])
+                    for who in range(2):
+                        if live_seen.get(who) != contents[who]:
+                            ctx.violation('harness error: live worker read other bytes', w)
+                            return
+                    d2 = tempfile.mkdtemp(prefix='vp-c20t-')
+                    dirs.append(d2)
+                    holder['seen'] = {}
+                    pb = rec.play(rid, lambda recording: cls().execute(d2, None))
+                    for who in range(2):
+                        ctx.count('threaded_files_compared')
+                        got = holder['seen'].get(who)
+                        if got != contents[who]:
+                            ctx.violation('file recorded while another thread used the same handler is not restored byte-identically (%s)' % (
+                                'truncated' if got is not None and contents[who].startswith(got) else 'other bytes'),
+                                dict(w, who=who, want_len=len(contents[who]), got_len=None if got is None else len(got)))
+                            return
+                    for which, outs in (('recorded_outputs', pb.recorded_outputs), ('playback_outputs', pb.playback_outputs)):
+                        for who in range(2):
+                            ent = [o for o in outs if 'files.publish%d' % who in o.key]
+                            if len(ent) != 1 or out_handler.restore_output_from_recording(ent[0].value).file_content != contents[who]:
+                                ctx.violation('holder content of a %s file output written by a worker thread differs from the bytes sent' % which, dict(w, who=who))
+                                return
+                finally:
+                    while dirs:
+                        shutil.rmtree(dirs.pop(), ignore_errors=True)
+            if quick:
+                S.explore_dfs(make, tg, 1, on_run, max_runs=150, step_budget=50000)
+            else:
+                S.explore_dfs(make, tg, 2, on_run, max_runs=1500, step_budget=50000)
+                S.explore_random(make, tg, 150, ctx.rng, on_run, step_budget=50000)
+
+
 def contents_fixed(rng, size):
     return bytes(rng.randrange(256) for _ in range(size))
 
@@ -311,6 +438,19 @@ def run(ctx):
                 ctx.case(case)
                 ctx.count('boundary_trips')
                 trip(ctx, case)
+    # an explicit limit of zero: "never capture content" - every non-empty file is strictly above it, the empty file is not
+    for lim in (0, 0.0):
+        for size in (0, 1, 300):
+            for env_limit in (None, 2):
+                idx += 1
+                if not ctx.mine(idx):
+                    continue
+                case = dict(shapes(rng), seed=base + idx, size=size, limit_mb=lim, above=size > 0, boundary='explicit zero limit %r, %d bytes' % (lim, size))
+                if env_limit is not None:
+                    case['env_limit'] = env_limit
+                ctx.case(case)
+                ctx.count('zero_limit_trips')
+                trip(ctx, case)
     # environment variable limit: 1 MiB +- 1 byte
     for delta in (-1, 0, 1):
         idx += 1
@@ -335,6 +475,8 @@ def run(ctx):
         ctx.case(case)
         ctx.count('round_trips')
         trip_rounds(ctx, case)
+    if ctx.shard == 0:
+        trip_threads(ctx, ctx.quick)
     for i in range(n):
         case = dict(shapes(rng), seed=base + 10000 + i)
         if rng.random() < 0.3:
@@ -351,4 +493,6 @@ def replay(ctx, w):
     case = {k: v for k, v in w.items() if k not in ('content_len', 'round', 'got_len')}
     if case.get('kind') == 'rounds':
         return trip_rounds(ctx, case)
+    if case.get('kind') == 'threads':
+        return trip_threads(ctx, ctx.quick)      # the exploration is deterministic: run it again
     trip(ctx, case)
